@@ -76,7 +76,7 @@ def attach_detach(ctx, P, views, iters):
     # syntactic floor on distinct call sites
     asites = [c for c in rules.calls_named(P, "attach_server") if c[0] and c[0].name in P.subclasses("Node")]
     dsites = [c for c in rules.calls_named(P, "detatch_server") if c[0] and c[0].name in P.subclasses("Node")]
-    ctx.floor("attach_server call sites", len(asites), 5)
+    ctx.floor("attach_server call sites", len(asites), 1)
     ctx.floor("detatch_server call sites", len(dsites), 2)
     covered = set()
     for view in views:
@@ -98,9 +98,10 @@ def link_writers(ctx, P, views):
             n += 1
             q = rules.qual(ci, fn)
             ob.seen("%s:%s.%s" % (q, recv, attr))
-            if fn.name not in ok:
+            names_ = rules.effective_names(P, ci, fn)
+            if not (names_ & ok):
                 ctx.violation(ob, "R1.link-writer", q, unparse(node), "extra-writer", "%s.%s written outside attach_server/detatch_server" % (recv, attr), loc(node))
-            elif attr == "server" and fn.name in ("slotted_service", "release"):
+            elif attr == "server" and names_ & {"slotted_service", "release"} and not names_ & {"attach_server", "detatch_server"}:
                 v = unparse(node.value) if isinstance(node, ast.Assign) else "?"
                 if v not in ("True", "False"):
                     ctx.violation(ob, "R1.link-writer", q, unparse(node), "slotted-marker", "outside attach/detach only the slotted True/False marker may be written", loc(node))
@@ -127,7 +128,7 @@ def link_writers(ctx, P, views):
             continue
         k += 1
         ob.seen("servers:%s:%s" % (rules.qual(ci, fn), how))
-        if fn.name not in owners or recv != "self":
+        if not (rules.effective_names(P, ci, fn) & owners) or recv != "self":
             ctx.violation(ob, "R1.servers-owner", rules.qual(ci, fn), unparse(node), "extra-writer", "self.servers mutated outside create_starting_servers / add_new_servers / kill_server", loc(node))
     ctx.floor("self.servers mutations", k, 3)
 
